@@ -72,7 +72,7 @@ MANIFEST = dict(
          "C07's byte-level reader theorem, C08's cast exactness and C06's writer theorem, including that the converted chart lies "
          "in the writer's domain; for the other 15 pairs the generic composition and the Quaver / O2Jam halves are proved and the "
          "statement is named _partial with the missing whole-file theorem (C01, C02/C03, C04/C05) listed. The check found ten defect "
-         "classes of the pinned tree (26 pair:cause keys, each with a minimal file in corpus/C09 and three of them as _refuted "
+         "classes of the pinned tree (27 pair:cause keys, each with a minimal file in corpus/C09 and three of them as _refuted "
          "theorems on the real written files): StepMania #OFFSET not the first tempo point (OsuToSM, QuaToSM), reseated tempo "
          "lists of StepMania / BMS sources, key count taken from the largest used column, SMToOsu CircleSize, BMS header / sample "
          "name crashes, duplicate O2Jam tempo at 0 in BMS, two-decimal #BPMS beats, ':.3f' BMS tempos.",
@@ -134,7 +134,7 @@ def _gen_abstract(rng, keys, *, exact=False, t0_zero=False, tempo_style=None, gr
     """A small musical chart: tempo script in beats (first change at beat 0, which sounds at t0 ms), notes on a beat grid.
     Per column the notes are laid out along a cursor, so long notes of a column never overlap and no two objects share a
     position.  full_cols: the last column is used (converters derive the key count from the largest column used)."""
-    style = tempo_style or rng.choice(["one", "one", "lines", "lines", "beats", "half", "quarter"])
+    style = tempo_style or rng.choice(["one", "one", "lines", "lines", "beats", "half", "quarter", "eighth"])
     n_t = 1 if style == "one" else rng.choice([2, 2, 3])
 
     def bpm():
@@ -249,7 +249,7 @@ def render_osu(rng, ab, mode="int", extras=True):
     for (b, v) in ab["tempo"]:
         t = _jit(rng, time_of(ab["t0"], ab["tempo"], b), mode)
         bl = dec(Fr(60000) / v, None if ab["exact"] else 12)
-        lines.append(f"{dec(t)},{bl},4,0,0,{rng.randint(0, 100)},1,{rng.choice([0, 0, 1])}")
+        lines.append(f"{dec(t)},{bl},{rng.choice([4, 4, 4, 3, 5, 7, 1])},0,0,{rng.randint(0, 100)},1,{rng.choice([0, 0, 1])}")
         tl["tempo"].append((_pd(dec(t)), Fr(60000) / _pd(bl)))
         if extras and rng.random() < 0.3:
             st = t + rng.choice([0, 250, -100])
@@ -282,9 +282,9 @@ def render_qua(rng, ab, extras=True, sv_early=False):
         tps.append({"StartTime": t, "Bpm": vv})
         tl["tempo"].append((Fr(t), Fr(vv)))
         if extras and rng.random() < 0.3:
-            svs.append({"StartTime": t + rng.choice([0, 250, 40]), "Multiplier": rng.choice([0.5, 2.0, 1.25])})
+            svs.append({"StartTime": t + rng.choice([0, 250, -100, -1]), "Multiplier": rng.choice([0.5, 2.0, 1.25])})
     if sv_early:
-        svs.insert(0, {"StartTime": tps[0]["StartTime"] - rng.choice([100, 40, 2500]), "Multiplier": 1.5})
+        svs.insert(0, {"StartTime": tps[0]["StartTime"] - rng.choice([100, 1, 7, 2500]), "Multiplier": 1.5})
     for (c, b, ln) in ab["notes"]:
         t = int(_jit(rng, time_of(ab["t0"], ab["tempo"], b), "int"))
         rec = {"StartTime": t, "Lane": c + 1, "KeySounds": []}
@@ -992,12 +992,11 @@ def gen_case(rng, a, b, scen="clean"):
     exact = rng.random() < 0.45
     keys = _keys_for(rng, a, b)
     opt = {"scen": scen}
-    kw = dict(exact=exact, full_cols=True)
-    kw["t0_zero"] = a in ("bms", "o2j") or b == "bms" or (a == "osu" and b == "sm")
+    # BMS sources: the key count IS the largest used column (no key-count attribute; known for bms->sm / qua / osu)
+    kw = dict(exact=exact, full_cols=(a == "bms" or rng.random() < 0.65))
+    kw["t0_zero"] = a in ("bms", "o2j") or b == "bms"
     if a in ("sm", "bms"):
         kw["tempo_style"] = rng.choice(["one", "lines", "lines"])
-    if a == "sm" and b == "osu":
-        keys = 4
     if a == "o2j" and b == "bms":
         kw["exact"] = True
         opt["first"] = "header"
@@ -1037,7 +1036,9 @@ def gen_case(rng, a, b, scen="clean"):
     if a == "bms":
         opt["src_layout"] = rng.choice([l for l in LAYOUTS if LAYOUT_KEYS[l] >= keys])
         if "sample_style" not in opt:
-            opt["sample_style"] = rng.choice(["ascii", "ascii", "none"])
+            opt["sample_style"] = rng.choice(["ascii", "ascii", "none", "sjis"])
+        if "headers" not in opt and rng.random() < 0.3:
+            opt["headers"] = "drop"
     if b == "bms":
         opt["shift"] = 1 if a == "o2j" else (0 if a == "sm" else rng.choice([0, 0, 0, 1]))
         opt["tgt_layout"] = rng.choice([l for l in LAYOUTS if LAYOUT_KEYS[l] >= keys + opt["shift"]])
@@ -1395,13 +1396,26 @@ def _o2j_event_at_0(case, k):
     return any(p["ch"] == 1 and p["n"] > 0 and any(s == 0 and p["m"] == 0 and bytes(bs) != b"\0\0\0\0" for s, bs in p["ev"]) for p in lv)
 
 
+# defect classes repaired in /repo (findings/C09.json: status "fixed"): still recognised by diagnose(), but a recurrence
+# is labelled regression:<key>, which is no listed finding, so it is reported as a VIOLATION
+FIXED_KEYS = {
+    "osu->sm:sm-offset-zero", "qua->sm:sm-offset-stack-min",                                         # cdbdcdf
+    "sm->osu:osu-circle-size-default",                                                                # 24f5d51
+    "osu->sm:keys-from-max-column", "qua->sm:keys-from-max-column", "o2j->sm:keys-from-max-column",   # 5e5686a
+    "osu->sm:sm-bpms-beat-2dp", "qua->sm:sm-bpms-beat-2dp", "o2j->sm:sm-bpms-beat-2dp",               # 6b5cf38
+    "bms->osu:bms-header-missing", "bms->qua:bms-header-missing", "bms->sm:bms-header-missing",       # 31e60b2
+    "bms->osu:bms-sample-non-ascii",                                                                  # d05f0bf
+}
+
+
 def classify(case, out, kind, sub=None):
     if sub is None:
         return None
     cause = diagnose(case, out, sub)
     if cause is None:
         return None
-    return f"{case['src']}->{case['tgt']}:{cause}"
+    key = f"{case['src']}->{case['tgt']}:{cause}"
+    return "regression:" + key if key in FIXED_KEYS else key
 
 
 # ====================================================================================== bookkeeping
